@@ -295,6 +295,64 @@ fn defaults_variant(r: &mut Rng, m: &mut Model) {
             c.name.clear();
         }
     }
+    // every numeric / optional field of the construction database at the values a skip rule or a
+    // default could single out (0, -0, 1, the type's Default, None)
+    for c in m.cons.wincons.iter_mut() {
+        if r.chance(1, 3) {
+            c.name.clear();
+        }
+        c.f_f = *r.pick(&[0.0, -0.0, 1.0, 0.25]);
+        c.delta_u = *r.pick(&[0.0, -0.0, 10.0, 1.0]);
+        c.c_100 = *r.pick(&[0.0, -0.0, 50.0, 27.0, 1.0, 3.0, 9.0]);
+        c.g_glshwi = *r.pick(&[None, Some(0.0), Some(1.0), Some(0.3)]);
+    }
+    for g in m.cons.glasses.iter_mut() {
+        if r.chance(1, 3) {
+            g.name.clear();
+        }
+        g.u_value = *r.pick(&[0.0, -0.0, 1.0, 2.7]);
+        g.g_gln = *r.pick(&[0.0, 1.0, 0.6]);
+    }
+    for f in m.cons.frames.iter_mut() {
+        if r.chance(1, 3) {
+            f.name.clear();
+        }
+        f.u_value = *r.pick(&[0.0, -0.0, 1.0, 2.2]);
+        f.absorptivity = *r.pick(&[0.0, 1.0, 0.6]);
+    }
+    for c in m.cons.wallcons.iter_mut() {
+        c.absorptance = *r.pick(&[0.0, -0.0, 1.0, 0.6]);
+        for l in c.layers.iter_mut() {
+            if r.chance(1, 4) {
+                l.e = *r.pick(&[0.0, 1.0]);
+            }
+        }
+    }
+    for w in m.windows.iter_mut() {
+        w.geometry.setback = *r.pick(&[0.0, -0.0, 1.0, 0.2]);
+        w.geometry.width = *r.pick(&[0.0, 1.0, 1.5]);
+        w.geometry.height = *r.pick(&[0.0, 1.0, 1.2]);
+        if r.chance(1, 3) {
+            w.geometry.position = None;
+        }
+    }
+    for w in m.walls.iter_mut() {
+        w.geometry.tilt = *r.pick(&[0.0, 90.0, 180.0, 1.0]);
+        w.geometry.azimuth = *r.pick(&[0.0, -0.0, 180.0, -90.0]);
+        if r.chance(1, 4) {
+            w.geometry.position = None;
+        }
+        if r.chance(1, 4) {
+            w.next_to = None;
+        }
+    }
+    for x in m.spaces.iter_mut() {
+        x.height = *r.pick(&[0.0, 1.0, 2.7]);
+        x.n_v = *r.pick(&[None, Some(0.0), Some(1.0)]);
+        x.illuminance = *r.pick(&[None, Some(0.0), Some(100.0)]);
+    }
+    m.meta.global_ventilation_l_s = *r.pick(&[None, Some(0.0), Some(30.0)]);
+    m.meta.n50_test_ach = *r.pick(&[None, Some(0.0), Some(3.0)]);
     for x in m.schedules.day.iter_mut() {
         if r.chance(1, 4) {
             x.values.clear();
